@@ -137,6 +137,148 @@ func gcScenario(name string, vals [][]uint64, pre int, tiers string) *explore.Sc
 	}}
 }
 
+type rec struct {
+	who      string
+	inv, ret int
+	svc      string
+	ttl      int64
+	sp, min  uint64
+	err      bool
+}
+
+func recs2ops(r []rec) []rec { return r }
+
+// linearizable searches a total order of the calls that respects real-time order and
+// reproduces every response and the final stored set on the sequential reference.
+func linearizable(ops []rec, stored map[string]uint64, now int64) string {
+	n := len(ops)
+	used := make([]bool, n)
+	var order []int
+	var try func(st *refState) bool
+	try = func(st *refState) bool {
+		if len(order) == n {
+			if len(st.ref) != len(stored) {
+				return false
+			}
+			for k, v := range stored {
+				if e, ok := st.ref[k]; !ok || e.sp != v {
+					return false
+				}
+			}
+			return true
+		}
+		for i := 0; i < n; i++ {
+			if used[i] {
+				continue
+			}
+			// i may go next only if no unused op completed before i began
+			ok := true
+			for j := 0; j < n; j++ {
+				if !used[j] && j != i && ops[j].ret < ops[i].inv {
+					ok = false
+				}
+			}
+			if !ok {
+				continue
+			}
+			c := st.clone()
+			_, min, refErr := c.apply(ops[i].svc, ops[i].ttl, ops[i].sp, now)
+			if refErr != ops[i].err || (!refErr && min.sp != ops[i].min) {
+				continue
+			}
+			used[i] = true
+			order = append(order, i)
+			if try(c) {
+				return true
+			}
+			order = order[:len(order)-1]
+			used[i] = false
+		}
+		return false
+	}
+	if try(&refState{ref: map[string]ent{}}) {
+		return ""
+	}
+	var l []string
+	for _, o := range ops {
+		l = append(l, fmt.Sprintf("%s[%d,%d] %s(ttl=%d,sp=%d)->min=%d err=%v", o.who, o.inv, o.ret, o.svc, o.ttl, o.sp, o.min, o.err))
+	}
+	return fmt.Sprintf("no sequential order of the calls explains the responses and the stored set %v: %s", stored, strings.Join(l, " | "))
+}
+
+// svcScenario: concurrent service safe point requests (the handler serializes them with a lock).
+func svcScenario(name string, pre int, tiers string) *explore.Scenario {
+	return &explore.Scenario{Name: name, MaxPre: pre, Tiers: tiers, Setup: func() *explore.Instance {
+		vclock.Enable(vclock.Epoch)
+		st := fakeetcd.New()
+		s := bootServer(st)
+		var recs []rec
+		seq := 0
+		call := func(who, svc string, ttl int64, sp uint64) {
+			r := rec{who: who, inv: seq, svc: svc, sp: sp, ttl: ttl}
+			seq++
+			resp, err := s.UpdateServiceGCSafePoint(context.Background(), &pdpb.UpdateServiceGCSafePointRequest{Header: s.Header(), ServiceId: []byte(svc), TTL: ttl, SafePoint: sp})
+			r.ret = seq
+			seq++
+			if err != nil || resp.GetHeader().GetError() != nil {
+				r.err = true
+			} else {
+				r.min = resp.MinSafePoint
+			}
+			recs = append(recs, r)
+		}
+		call("init", "gc_worker", math.MaxInt64, 3)
+		return &explore.Instance{Names: []string{"svc-x", "gc", "svc-y"}, Threads: []func(){
+			func() { call("svc-x", "x", 100, 5) },
+			func() { call("gc", "gc_worker", math.MaxInt64, 10) },
+			func() { call("svc-y", "y", 100, 7); call("svc-y", "y", 0, 0) },
+		}, Check: func(r *sched.Run) (string, *explore.Violation) {
+			defer s.Close()
+			call("final", "z", 0, 0)
+			// the reported minimum never goes back once acknowledged, unless a registration that
+			// was accepted at or above the then-minimum explains it; and nothing is recorded
+			// below a minimum acknowledged before the request began.
+			stored := map[string]uint64{}
+			for _, kv := range st.Dump() {
+				if strings.HasPrefix(kv[0], svcPrefix) {
+					var ssp core.ServiceSafePoint
+					json.Unmarshal([]byte(kv[1]), &ssp)
+					stored[ssp.ServiceID] = ssp.SafePoint
+				}
+			}
+			if msg := linearizable(recs2ops(recs), stored, vclock.Base().Unix()); msg != "" {
+				return "", &explore.Violation{Key: "service-not-linearizable", Msg: msg}
+			}
+			for _, a := range recs {
+				if a.err {
+					continue
+				}
+				for _, b := range recs {
+					if b.err || b.ret >= a.inv {
+						continue
+					}
+					// b completed before a began
+					if sp, ok := stored[a.svc]; ok && a.svc != "gc_worker" && sp == a.sp && a.sp < b.min {
+						return "", &explore.Violation{Key: "below-acked-min-recorded", Msg: fmt.Sprintf("service %s is recorded at %d although minimum %d had been acknowledged to %s before its request began", a.svc, a.sp, b.min, b.who)}
+					}
+				}
+			}
+			last := recs[len(recs)-1]
+			for name, sp := range stored {
+				if !last.err && last.min > sp {
+					return "", &explore.Violation{Key: "min-above-live-service", Msg: fmt.Sprintf("final reported minimum %d is above the safe point %d of %s", last.min, sp, name)}
+				}
+			}
+			var l []string
+			for _, x := range recs {
+				l = append(l, fmt.Sprintf("%s:%d", x.who, x.min))
+			}
+			sort.Strings(l)
+			return strings.Join(l, ","), nil
+		}}
+	}}
+}
+
 // ---- service safe points (engine B) ----
 
 type svcOp struct {
@@ -164,10 +306,10 @@ type ent struct {
 }
 
 type svcModel struct {
-	st   *fakeetcd.Store
-	s    *srvh.Srv
-	ops  []svcOp
-	ref  map[string]ent
+	st  *fakeetcd.Store
+	s   *srvh.Srv
+	ops []svcOp
+	refState
 	last string
 }
 
@@ -176,11 +318,11 @@ func newSvcModel(full bool) *svcModel {
 	m := &svcModel{st: fakeetcd.New()}
 	m.s = bootServer(m.st)
 	services := []string{"a", "b", "gc_worker"}
-	ttls := []int64{-1, 0, 5, math.MaxInt64}
+	ttls := []int64{-1, 0, 5, math.MaxInt64 - 1, math.MaxInt64}
 	sps := []uint64{10, 20, 30}
 	if full {
 		sps = []uint64{10, 20, 30, 40}
-		ttls = []int64{-1, 0, 5, 50, math.MaxInt64}
+		ttls = []int64{-1, 0, 5, 50, math.MaxInt64 - 1, math.MaxInt64}
 	}
 	for _, sv := range services {
 		for _, t := range ttls {
@@ -196,10 +338,10 @@ func newSvcModel(full bool) *svcModel {
 	return m
 }
 
-func (m *svcModel) NumOps() int          { return len(m.ops) }
-func (m *svcModel) OpName(i int) string  { return m.ops[i].String() }
-func (m *svcModel) Enabled(op int) bool  { return true }
-func (m *svcModel) nowUnix() int64       { return vclock.Base().Unix() }
+func (m *svcModel) NumOps() int         { return len(m.ops) }
+func (m *svcModel) OpName(i int) string { return m.ops[i].String() }
+func (m *svcModel) Enabled(op int) bool { return true }
+func (m *svcModel) nowUnix() int64      { return vclock.Base().Unix() }
 
 func (m *svcModel) Reset() {
 	for _, kv := range m.st.Dump() {
@@ -231,9 +373,45 @@ func (m *svcModel) stored() (map[string]ent, error) {
 	return out, nil
 }
 
+// refState is the sequential reference model of the service safe points.
+type refState struct{ ref map[string]ent }
+
+// apply is the reference of one UpdateServiceGCSafePoint call.
+func (m *refState) apply(service string, ttl int64, sp uint64, now int64) (minName string, min ent, refErr bool) {
+	if ttl <= 0 {
+		if service == "gc_worker" {
+			return "", ent{}, true
+		}
+		delete(m.ref, service)
+	}
+	minName, min = m.refMin(now)
+	if ttl > 0 && sp >= min.sp {
+		exp := now + ttl
+		if math.MaxInt64-now <= ttl {
+			exp = math.MaxInt64
+		}
+		if service == "gc_worker" && exp != math.MaxInt64 {
+			return "", ent{}, true
+		}
+		m.ref[service] = ent{sp, exp}
+		if service == minName {
+			minName, min = m.refMin(now)
+		}
+	}
+	return minName, min, false
+}
+
+func (m *refState) clone() *refState {
+	c := &refState{ref: map[string]ent{}}
+	for k, v := range m.ref {
+		c.ref[k] = v
+	}
+	return c
+}
+
 // refMin is the statement-level reference of "load the minimum": drop expired
 // entries, make sure gc_worker exists (never expiring), return the smallest.
-func (m *svcModel) refMin(now int64) (string, ent) {
+func (m *refState) refMin(now int64) (string, ent) {
 	if len(m.ref) == 0 {
 		m.ref["gc_worker"] = ent{0, math.MaxInt64}
 		return "gc_worker", m.ref["gc_worker"]
@@ -285,34 +463,7 @@ func (m *svcModel) Apply(i int) *hist.Violation {
 		return &hist.Violation{Key: "stored-garbage", Msg: serr.Error()}
 	}
 	now := m.nowUnix()
-	// reference
-	refErr := false
-	if o.ttl <= 0 {
-		if o.service == "gc_worker" {
-			refErr = true
-		} else {
-			delete(m.ref, o.service)
-		}
-	}
-	var minName string
-	var min ent
-	if !refErr {
-		minName, min = m.refMin(now)
-		if o.ttl > 0 && o.sp >= min.sp {
-			exp := now + o.ttl
-			if math.MaxInt64-now <= o.ttl {
-				exp = math.MaxInt64
-			}
-			if o.service == "gc_worker" && exp != math.MaxInt64 {
-				refErr = true
-			} else {
-				m.ref[o.service] = ent{o.sp, exp}
-				if o.service == minName {
-					minName, min = m.refMin(now)
-				}
-			}
-		}
-	}
+	minName, min, refErr := m.refState.apply(o.service, o.ttl, o.sp, now)
 	m.last = fmt.Sprintf("err=%v", err != nil)
 	// ---- invariants from the statement ----
 	if g, ok := after["gc_worker"]; len(after) > 0 && (!ok || g.exp != math.MaxInt64) {
@@ -385,6 +536,8 @@ func main() {
 			gcScenario("2x1", [][]uint64{{20}, {10}}, 2, "quick"),
 			gcScenario("2x2", [][]uint64{{10, 30}, {20}}, 2, "quick"),
 			gcScenario("3x1", [][]uint64{{30}, {20}, {10}}, 2, "quick"),
+			svcScenario("service-concurrent", 2, "quick"),
+			svcScenario("service-concurrent@3", 3, "thorough"),
 			gcScenario("3x2@3", [][]uint64{{10, 30}, {20, 20}, {30, 10}}, 3, "thorough"),
 		},
 		HistScopes: []*hist.Scope{
